@@ -197,7 +197,10 @@ func TestVerifRace(t *testing.T) {
 		c := map[string]Metadata{"s": &Metablock{Signed: Link{Type: "link", Name: "s", Materials: map[string]HashObj{fmt.Sprintf("f%d", i): {"sha256": "ab"}}}}}
 		err := VerifyArtifacts([]interface{}{Step{Type: "step", SupplyChainItem: SupplyChainItem{Name: "s", ExpectedMaterials: [][]string{{"ALLOW", "f*"}, {"DISALLOW", "*"}}}}}, c)
 		_, err2 := SubstituteParameters(Layout{Steps: []Step{{ExpectedCommand: []string{"{P}"}}}}, map[string]string{"P": fmt.Sprint(i)})
-		return vRender(err == nil) + vRender(err2 == nil)
+		// a refused rule: the error text belongs to this call alone
+		_, err3 := UnpackRule([]string{fmt.Sprintf("BOGUS%d", i), "x"})
+		_, err4 := UnpackRule([]string{"MATCH", "x", "WITH"})
+		return vRender(err == nil) + vRender(err2 == nil) + fmt.Sprint(err3) + fmt.Sprint(err4)
 	}
 	dumpLoad := func(i int) string {
 		out := ""
